@@ -237,6 +237,8 @@ def run(ck):
             own = OWN[al]
             others = sorted({own ^ 1, (own + 1) % (1 << (8 * al)), 0, (own >> 8) | ((own & 255) << 8) if al == 2 else own ^ 0x80,
                              own & 0xFF if al == 2 else own ^ 0x40, (1 << (8 * al)) - 1} - {own})
+            if al == 2:   # addresses sharing one octet with the broadcast address
+                others = sorted(set(others) | {0x00FF, 0xFF00, (own & 0xFF00) | 0xFF, 0xFF00 | (own & 0xFF)})
             for name, f in base_frames(kind, al):
                 if f == b"\xe5":
                     continue
